@@ -273,7 +273,7 @@ pub fn classify(c: &Case) -> Classes {
 
 fn root_strategy() -> BoxedStrategy<RootSrc> {
     let len = prop_oneof![
-        3 => prop::sample::select(vec![0usize, 1, 31, 32, 63, 64, 65, 127, 128, 1023, 1024, 1025, 2048, 2049, 3072, 4096]),
+        3 => crate::gen::select(vec![0usize, 1, 31, 32, 63, 64, 65, 127, 128, 1023, 1024, 1025, 2048, 2049, 3072, 4096]),
         2 => 0usize..=1024,
         2 => 1025usize..=4096,
         1 => 4097usize..=40_000,
@@ -290,7 +290,7 @@ fn op_strategy(tier: Tier) -> BoxedStrategy<Op> {
     let n = prop_oneof![
         1 => Just(0u32),
         4 => 1u32..=130,
-        2 => prop::sample::select(vec![63u32, 64, 65, 127, 128, 129, 1023, 1024, 1025, 1088, 2048]),
+        2 => crate::gen::select(vec![63u32, 64, 65, 127, 128, 129, 1023, 1024, 1025, 1088, 2048]),
         3 => 0u32..=maxn,
     ];
     prop_oneof![
@@ -301,11 +301,11 @@ fn op_strategy(tier: Tier) -> BoxedStrategy<Op> {
         2 => gen::position_lattice().prop_map(Op::SeekStart),
         3 => prop_oneof![
             3 => -200i64..=200,
-            1 => prop::sample::select(vec![i64::MIN, i64::MIN + 1, -(1i64 << 38), 1i64 << 38, (1i64 << 38) - 64 * 20, i64::MAX]),
+            1 => crate::gen::select(vec![i64::MIN, i64::MIN + 1, -(1i64 << 38), 1i64 << 38, (1i64 << 38) - 64 * 20, i64::MAX]),
             1 => any::<i64>(),
         ].prop_map(Op::SeekCurrent),
         1 => any::<i64>().prop_map(Op::SeekEnd),
-        1 => prop::sample::select(vec![-1i64, 0, 1]).prop_map(Op::SeekEnd),
+        1 => crate::gen::select(vec![-1i64, 0, 1]).prop_map(Op::SeekEnd),
         1 => Just(Op::Position),
         1 => Just(Op::StreamPosition),
         1 => Just(Op::Clone),
